@@ -2,11 +2,12 @@
 # copies every verified round-6 seed from $SEEDROOT (default /tmp/seed6) into /verif/seeded/<id>/ (re-runnable)
 import json,os,re,sys,shutil,glob
 root=os.environ.get('SEEDROOT','/tmp/seed6')
+R=os.environ.get('ROUND','6')
 closed={}
-cf='/verif/seeded/r6_closed.json'
+cf='/verif/seeded/r%s_closed.json'%R
 if os.path.exists(cf): closed=json.load(open(cf))
 manual={}
-mf='/verif/seeded/r6_manual.json'
+mf='/verif/seeded/r%s_manual.json'%R
 if os.path.exists(mf): manual=json.load(open(mf))
 rows=[]
 for f in sorted(glob.glob(root+'/out/C??[AB].txt')):
@@ -21,7 +22,7 @@ for f in sorted(glob.glob(root+'/out/C??[AB].txt')):
     w=root+'/'+pid
     m=json.load(open('%s/SEED_%s_meta.json'%(w,X)))
     slug=re.sub(r'[^a-z0-9]+','-',m['summary'].lower())[:48].strip('-')
-    id='%s-r6%s-%s'%(pid,X.lower(),slug)
+    id='%s-r%s%s-%s'%(pid,R,X.lower(),slug)
     d='/verif/seeded/'+id; os.makedirs(d,exist_ok=True)
     shutil.copy('%s/SEED_%s_patch.diff'%(w,X),d+'/patch.diff'); shutil.copy('%s/SEED_%s_demo_test.go.txt'%(w,X),d+'/demo_test.go.txt')
     key=pid+X
@@ -32,4 +33,4 @@ for f in sorted(glob.glob(root+'/out/C??[AB].txt')):
     json.dump(out,open(d+'/meta.json','w'),indent=1)
     rows.append((pid,X,m['summary'],caught,closed.get(key,'')))
 print(len(rows),'kept')
-json.dump(rows,open('/verif/seeded/r6_table.json','w'),indent=1)
+json.dump(rows,open('/verif/seeded/r%s_table.json'%R,'w'),indent=1)
